@@ -58,14 +58,14 @@ export function genOp(rng, D, fields, listFields = ['list', 'arr'], prefer = [])
     return { op: 'set', path, vseed: rng.u32(), item: path[0] === 'list' && path.length === 2 }
   }
   if (r < 45) return { op: 'set', path: [rng.pick(fields)], vseed: rng.u32() }
-  if (r < 80) {
+  if (r < 74) {
     const f = rng.pick(listFields)
     const cur = Array.isArray(D[f]) ? D[f] : []
     const kind = rng.pick(['push', 'pop', 'insert', 'remove', 'reverse', 'rotate', 'dupKey', 'clear', 'replaceAll'])
     const viaSplice = rng.bool(0.4) && Array.isArray(D[f]) && ['push', 'pop', 'insert', 'remove'].includes(kind)
     return { op: 'list', field: f, kind, index: rng.int(cur.length + 1), vseed: rng.u32(), viaSplice }
   }
-  if (r < 90) {
+  if (r < 83) {
     // several paths in one call
     const n = rng.range(2, 3)
     const ops = []
@@ -77,6 +77,17 @@ export function genOp(rng, D, fields, listFields = ['list', 'arr'], prefer = [])
       ops.push({ op: 'set', path: [f], vseed: rng.u32() })
     }
     return { op: 'multi', ops }
+  }
+  if (r < 96) {
+    // add / remove a key of an object (only that key's path differs; positions of the other keys shift)
+    const objs = settablePaths(D, fields).filter((p) => { const v = get(D, p); return v !== null && typeof v === 'object' && !Array.isArray(v) && typeof v !== 'function' })
+    const pref = objs.filter((p) => prefer.includes(p[0]))
+    const path = (pref.length && rng.bool(0.7)) ? rng.pick(pref) : objs.length ? rng.pick(objs) : null
+    if (path) {
+      const keys = Object.keys(get(D, path))
+      const kind = keys.length && rng.bool(0.5) ? 'del' : rng.pick(['add', 'addFront'])
+      return { op: 'key', path, kind, key: kind === 'del' ? rng.pick(keys) : rng.pick(['zz', 'k9', 'a0', 'items', 'x']), vseed: rng.u32() }
+    }
   }
   // type change of a list/object field
   const f = rng.pick(['list', 'arr', 'obj', 'ob', 'n', 's'].filter((x) => fields.includes(x) || listFields.includes(x)))
@@ -127,6 +138,18 @@ export function applyOp(D, o) {
       return [[o.field]]
     }
     case 'multi': return o.ops.flatMap((x) => applyOp(D, x))
+    case 'key': {
+      const cur = get(D, o.path)
+      if (cur === null || typeof cur !== 'object' || Array.isArray(cur)) return []
+      if (o.kind === 'del') { if (!(o.key in cur)) return []; delete cur[o.key]; return [[...o.path, o.key]] }
+      if (o.kind === 'add') { cur[o.key] = valueOf(o.vseed); return [[...o.path, o.key]] }
+      // addFront: the new key comes first in iteration order (the object is rebuilt in place)
+      const old = { ...cur }
+      for (const k of Object.keys(cur)) delete cur[k]
+      cur[o.key] = valueOf(o.vseed)
+      for (const k of Object.keys(old)) if (k !== o.key) cur[k] = old[k]
+      return [[...o.path, o.key]]
+    }
   }
   throw new Error('applyOp ' + o.op)
 }
@@ -155,12 +178,25 @@ export function driveOp(comp, o) {
       return true
     }
   }
+  if (o.op === 'key') {
+    // through the component API a key can only disappear (or move) by replacing its parent object
+    const cur = get(D, o.path)
+    if (cur === null || typeof cur !== 'object' || Array.isArray(cur)) return false
+    if (o.kind === 'add') { comp.setData({ [pathString([...o.path, o.key])]: valueOf(o.vseed) }); return true }
+    const next = Object.create(Object.getPrototypeOf(cur)) // same kind of object, other key set
+    if (o.kind === 'addFront') next[o.key] = valueOf(o.vseed)
+    for (const k of Object.keys(cur)) if (k !== o.key) next[k] = cur[k]
+    if (o.kind === 'del' && !(o.key in cur)) return false
+    comp.setData({ [pathString(o.path)]: next })
+    return true
+  }
   throw new Error('driveOp ' + o.op)
 }
 
 export function showOp(o) {
   if (o.op === 'set') return `set ${pathString(o.path)}`
   if (o.op === 'list') return `${o.viaSplice ? 'splice' : 'setData'} ${o.field}.${o.kind}@${o.index}`
+  if (o.op === 'key') return `${o.kind}-key ${pathString([...o.path, o.key])}`
   return 'multi{' + o.ops.map(showOp).join(', ') + '}'
 }
 
